@@ -493,6 +493,13 @@ class SharesManager(BaseManager):
         if parents:
             parent = parents[-1]
             parent.items |= shared_directory.items
+        else:
+            # The items are no longer shared. The term map only holds weak
+            # references but the items can outlive the removal (reference
+            # cycle between the directory and its items, items of a nested
+            # directory still referring to the removed directory)
+            for item in shared_directory.items:
+                self._remove_item_from_term_map(item)
 
         self._cleanup_term_map()
 
@@ -570,7 +577,10 @@ class SharesManager(BaseManager):
             # with a changed `modified` parameter will also be removed meaning
             # their attributes will be reset and these files attributes need
             # to be rescanned
-            shared_directory.items -= (shared_directory.items ^ shared_items)
+            removed_items = shared_directory.items - shared_items
+            shared_directory.items -= removed_items
+            for item in removed_items:
+                self._remove_item_from_term_map(item)
 
         self._build_term_map(shared_directory)
         self._cleanup_term_map()
@@ -897,6 +907,13 @@ class SharesManager(BaseManager):
             if term not in self._term_map:
                 self._term_map[term] = WeakSet()
             self._term_map[term].add(item)
+
+    def _remove_item_from_term_map(self, item: SharedItem):
+        path = (item.subdir + "/" + item.filename).lower()
+        terms = re.split(_QUERY_CLEAN_PATTERN, path)
+        for term in terms:
+            if term in self._term_map:
+                self._term_map[term].discard(item)
 
     def _cleanup_term_map(self):
         self._term_map = {
